@@ -37,6 +37,13 @@ pub fn hx(b: &[u8]) -> J {
 /// Match `expect` as an in-order subsequence of `log` (extra entries in the log are allowed: a harmless
 /// refactor may pre-generate or re-generate blocks).  Ok(number of extra entries) or Err(index of the
 /// first expected entry that does not occur in order).
+/// Index of the first block of `want` that does not occur ANYWHERE in `log` (None: every needed block was fed to the cipher
+/// at some point of the object's life).  Order and multiplicity are left to the implementation: it may prefetch, regenerate,
+/// or serve a block that is needed again from memory.
+pub fn first_missing(log: &[Vec<u8>], want: &[Vec<u8>]) -> Option<usize> {
+    let set: std::collections::HashSet<&[u8]> = log.iter().map(|b| b.as_slice()).collect();
+    want.iter().position(|w| !set.contains(w.as_slice()))
+}
 pub fn match_subsequence(log: &[Vec<u8>], expect: &[Vec<u8>]) -> Result<usize, usize> {
     let mut i = 0;
     for (j, e) in expect.iter().enumerate() {
